@@ -664,7 +664,7 @@ func hasEqualKeyTexts(c *Case) bool {
 }
 
 func oracleC07(cx *CheckCtx, runs []*CaseRun) []Finding {
-	var fs []Finding
+	fs := d7Membership(cx, runs)
 	reps := 8
 	for ci, cr := range runs {
 		if cr.BuildPanic != "" || len(cr.Real) == 0 {
@@ -956,4 +956,86 @@ func unboundQualifier(src string, pool []string) string {
 		}
 	}
 	return ""
+}
+
+// d7Membership: for recipes of the known-finding shape D7 (one multi-pair Dict whose keys/values
+// reference unregistered colliding packages) the implementation's output depends on the map
+// iteration order, which the model takes as a parameter: the real output must be one of the
+// model's outputs over ALL permutations of the Dict's pairs.
+func d7Membership(cx *CheckCtx, runs []*CaseRun) []Finding {
+	var fs []Finding
+	var variants []*Case
+	owner := map[string]*CaseRun{}
+	for _, cr := range runs {
+		if !strings.HasPrefix(cr.Case.ID, "C07-d7-") || len(cr.Real) == 0 || cr.Real[0].Class != "ok" {
+			continue
+		}
+		d := findDict(cr.Case)
+		if d == nil || len(d.Pairs) > 5 {
+			continue
+		}
+		idx := make([]int, len(d.Pairs))
+		for i := range idx {
+			idx[i] = i
+		}
+		n := 0
+		var rec func(k int)
+		rec = func(k int) {
+			if k == len(idx) {
+				perm := &Dict{}
+				for _, j := range idx {
+					perm.Pairs = append(perm.Pairs, d.Pairs[j])
+				}
+				rw := &rewriter{}
+				c2 := rw.rewriteCase(cr.Case, fmt.Sprintf("%s-perm%d", cr.Case.ID, n))
+				// replace the Dict in the copy
+				walkCase(c2, &termVisitor{arg: func(a Arg) {
+					if x, ok := a.(*Dict); ok {
+						x.Pairs = perm.Pairs
+					}
+				}})
+				variants = append(variants, c2)
+				owner[c2.ID] = cr
+				n++
+				return
+			}
+			for i := k; i < len(idx); i++ {
+				idx[k], idx[i] = idx[i], idx[k]
+				rec(k + 1)
+				idx[k], idx[i] = idx[i], idx[k]
+			}
+		}
+		rec(0)
+	}
+	if len(variants) == 0 {
+		return nil
+	}
+	model, err := RunModel(variants, 8)
+	if err != nil {
+		cx.note("d7 membership: driver error " + err.Error())
+		return nil
+	}
+	outs := map[*CaseRun]map[string]bool{}
+	for i, v := range variants {
+		cr := owner[v.ID]
+		if outs[cr] == nil {
+			outs[cr] = map[string]bool{}
+		}
+		if len(model[i]) > 0 && model[i][0].Class == "ok" {
+			_, out := expectFromModel(model[i][0], false, Op{})
+			outs[cr][out] = true
+		}
+	}
+	members := 0
+	for cr, set := range outs {
+		if set[cr.Real[0].Out] {
+			members++
+		} else {
+			fs = append(fs, Finding{Property: "C07", Shape: "dict-output-not-among-model-orders", What: fmt.Sprintf("the output is none of the %d outputs the model produces over all iteration orders of the Dict", len(set)), Case: cr.Case.Text(), Observed: trunc(cr.Real[0].Out)})
+		}
+	}
+	cx.Extra["d7_membership_cases"] = len(outs)
+	cx.Extra["d7_membership_members"] = members
+	cx.Extra["d7_membership_model_runs"] = len(variants)
+	return fs
 }
